@@ -844,12 +844,16 @@ static void * vbi_proxyd_acq_thread( void * pvoid_arg )
 /* ----------------------------------------------------------------------------
 ** Verification hook: trace output
 */
-static void verif_trace( const char * fmt, ... )
+/* the acquisition thread and the main loop both write trace lines: the sequence number is
+** assigned and the line is written under one (leaf) mutex, so that the order of the lines
+** is the order of the traced actions */
+static pthread_mutex_t verif_trace_mutex = PTHREAD_MUTEX_INITIALIZER;
+
+static void verif_trace_locked( const char * fmt, va_list ap )
 {
    static int trace_fd = -2;
    static unsigned long seq;
    char buf[2048];
-   va_list ap;
    int n;
 
    if (trace_fd == -2)
@@ -860,9 +864,7 @@ static void verif_trace( const char * fmt, ... )
    if (trace_fd >= 0)
    {
       n = snprintf(buf, sizeof(buf), "{\"seq\":%lu,", ++seq);
-      va_start(ap, fmt);
       n += vsnprintf(buf + n, sizeof(buf) - n - 2, fmt, ap);
-      va_end(ap);
       if (n > (int) sizeof(buf) - 3)
          n = sizeof(buf) - 3;
       buf[n++] = '}';
@@ -870,6 +872,17 @@ static void verif_trace( const char * fmt, ... )
       if (write(trace_fd, buf, n) < 0)
          trace_fd = -1;
    }
+}
+
+static void verif_trace( const char * fmt, ... )
+{
+   va_list ap;
+
+   pthread_mutex_lock(&verif_trace_mutex);
+   va_start(ap, fmt);
+   verif_trace_locked(fmt, ap);
+   va_end(ap);
+   pthread_mutex_unlock(&verif_trace_mutex);
 }
 
 /* ----------------------------------------------------------------------------
@@ -1058,6 +1071,9 @@ static void verif_trace_state( const char * p_event, int fd )
    if (proxy.should_exit)
       return;  /* shutting down: the client list is being freed */
 
+   /* the acquisition thread appends to the queue (callers hold no lock) */
+   pthread_mutex_lock(&proxy.dev[0].queue_mutex);
+
    n += snprintf(buf + n, sizeof(buf) - n, "\"e\":\"%s\",\"c\":%d,\"clients\":[", p_event, fd);
    for (req = proxy.p_clnts; (req != NULL) && (n < 1200); req = req->p_next)
       n += snprintf(buf + n, sizeof(buf) - n, "%s[%d,%d,%d,%d,%u,%d]", (req == proxy.p_clnts) ? "" : ",",
@@ -1070,6 +1086,8 @@ static void verif_trace_state( const char * p_event, int fd )
                     (int) p_buf->timestamp, p_buf->ref_count);
    n += snprintf(buf + n, sizeof(buf) - n, "]");
    verif_trace("%s", buf);
+
+   pthread_mutex_unlock(&proxy.dev[0].queue_mutex);
 }
 #endif  /* ZVBI_VERIF */
 
